@@ -29,6 +29,8 @@ const (
 	KVanish   = "vanishing"
 	KUnread   = "unreadable-dir-entry" // a path below a regular file (ENOTDIR)
 	KReadFail = "opens-but-read-fails" // /proc/self/mem: open succeeds, the first read returns EIO
+	KLoop     = "link-to-itself"       // open fails with ELOOP
+	KLongName = "name-too-long"        // open fails with ENAMETOOLONG
 )
 
 // ListCase is a path list described by entry kinds; Repeat > 1 builds large lists with duplicates.
@@ -42,7 +44,7 @@ type ListCase struct {
 func (c ListCase) size() int { return len(c.Kinds) + len(c.Dups) }
 
 func faulty(k string) bool {
-	return k == KMissing || k == KDangling || k == KUnread || k == KReadFail
+	return k == KMissing || k == KDangling || k == KUnread || k == KReadFail || k == KLoop || k == KLongName
 }
 
 // readFailPath is a file that can be opened but not read ("" when the platform has none).
@@ -101,6 +103,12 @@ func (c ListCase) build(root string) ([]string, []string, error) {
 				break
 			}
 			p = readFailPath
+		case KLoop:
+			if err := os.Symlink(filepath.Base(p), p); err != nil {
+				return nil, nil, err
+			}
+		case KLongName:
+			p = filepath.Join(root, strings.Repeat("n", 300))
 		case KUnread:
 			base := filepath.Join(root, fmt.Sprintf("b%03d", i))
 			if err := os.WriteFile(base, []byte("file"), 0o644); err != nil {
